@@ -51,7 +51,7 @@ def _hist(rng):
     return dict(kind='hist', evs=evs)
 
 
-TIMEQ = ['getTimes', 'getTimes_bounds', 'getTimes_tb', 'getTimes_tflag', 'getTimes_tflag0', 'getTimes_tau0', 'getTimes_dt64',
+TIMEQ = ['getTimes', 'getTimes_bounds', 'getTimes_tb', 'getTimes_tflag', 'getTimes_tflag0', 'getTimes_tau0', 'getTimes_dt64', 'getTimes_noleap',
          'time2t_nearest', 'time2t_bounds', 'time2t_bounds_close']
 QUERIES = TIMEQ + ['val2idx_nearest', 'val2idx_bounds', 'val2idx_exact', 'repr', 'save', 'slice_dim', 'getvarpnc',
            'pncrename', 'eval_bare', 'eval_expr', 'eval_chain', 'eval_chain_assign',
@@ -74,7 +74,7 @@ QUERIES = TIMEQ + ['val2idx_nearest', 'val2idx_bounds', 'val2idx_exact', 'repr',
            'eval_selfvar', 'pncexpr_ifilevar', 'slice_maskedidx',
            # unary operations on masked variables (numpy hands the operand's mask on to the result); merge of several files;
            # a window of an IOAPI file whose grid origin is held as arrays
-           'eval_unary_mask', 'pncexpr_unary_mask', 'merge_views', 'ioapi_origarr']
+           'eval_unary_mask', 'pncexpr_unary_mask', 'merge_views', 'ioapi_origarr', 'slice_dim_full', 'getTimes_noleap']
 
 
 def _pure(rng):
@@ -128,7 +128,8 @@ def gen(rng, tier):
     # the functional helpers and the statements that write, on every run, on files that have coordinate variables
     for q in ('slice_dim', 'slice_dim_range', 'getvarpnc', 'pncrename', 'interpvars', 'extract_lonlat', 'eval_tuple', 'pncexpr_tuple',
               'eval_attrarr', 'pncexpr_attrarr', 'pncexpr_del', 'pncexpr_rename', 'eval_aug', 'pncexpr_aug', 'eval_selfvar',
-              'pncexpr_ifilevar', 'slice_maskedidx', 'eval_unary_mask', 'pncexpr_unary_mask', 'merge_views', 'ioapi_origarr'):
+              'pncexpr_ifilevar', 'slice_maskedidx', 'eval_unary_mask', 'pncexpr_unary_mask', 'merge_views', 'ioapi_origarr', 'slice_dim_full',
+              'getTimes_noleap', 'getTimes_noleap'):
         spec = pfile.gen_file(rng, maxlen=3, coord_prob=1.0, scalar_prob=0.0)
         for v in spec['vars']:
             if v['dtype'] == 'f':
@@ -252,6 +253,14 @@ def _query(f, q, spec):
         if q == 'getTimes_dt64':
             f.getTimes(datetype='datetime64[s]')
             return None
+        if q == 'getTimes_noleap':
+            # a calendar of fixed-length years (the values it decodes are C12's recorded finding; here: the receiver stays)
+            for b_ in (False, True):
+                try:
+                    f.getTimes(bounds=b_)
+                except Exception:
+                    pass
+            return None
         if q == 'getTimes_tflag0':
             for b_ in (False, True):
                 try:
@@ -343,6 +352,10 @@ def _query(f, q, spec):
         return None
     if q == 'slice_dim_range':
         return F.slice_dim(f, '%s,0,2' % list(f.dimensions)[-1])
+    if q == 'slice_dim_full':
+        # a window that happens to keep every element: still a new file
+        d = list(f.dimensions)[-1]
+        return F.slice_dim(f, '%s,0,%d' % (d, len(f.dimensions[d])))
     if q == 'interpvars':
         cs = [c for c in f.dimensions if len(f.dimensions[c]) >= 1 and len(f.dimensions[c]) != 2 and
               all(f.variables[k].dtype.kind in 'fiu' for k in f.variables if c in f.variables[k].dimensions)]
@@ -573,6 +586,9 @@ def _impl(case):
             tv = f.createVariable('time', 'd', (d0,))
             tv.units = case.get('tunits', 'hours since 2001-02-03 00:00:00+0000')
             tv[:] = np.arange(n0) * 6.
+            if q == 'getTimes_noleap':
+                tv.units = 'days since 2001-02-03 00:00:00'
+                tv.calendar = ['noleap', '365_day', 'all_leap', '366_day'][n0 % 4]
             if q == 'getTimes_tb':
                 f.createDimension('nv', 2)
                 tb = f.createVariable('time_bounds', 'd', (d0, 'nv'))
@@ -649,7 +665,8 @@ def _impl_pure(case, spec, f):
             g = None
     res['changed'] = _after(before, f)
     res['alias'] = []
-    if g is f and case['op'][0] != 'query':
+    if g is f and (case['op'][0] != 'query' or case['op'][1] in ('slice_dim', 'slice_dim_range', 'slice_dim_full')):
+        # (a window through the string front end is a new file, also when it keeps every element)
         res['same_object'] = True
     if g is not None and g is not f:
         res['nvars'] = len(g.variables)
